@@ -159,6 +159,30 @@ def copied (s : Shared) : Act → Shared
   | .ext _ => s                                    -- the union goes into the extension's own copy
   | .other => { s with snaps := s.snaps ++ [s.ag] }
 
+/-! #### the general form: constructors that read and (should not) write a component that is already built
+
+  Every constructor that refers to a built component may read it (snapshot it into its own complete wildcard)
+  and — if it is not pure — leave something else in it.  The harness fingerprints every global component when
+  its constructor returns and again at the end of the build and after validation: that is the hypothesis
+  `PureCtor` checked on the real objects.  (wildcards.py:411-416, the `##other` × explicit-list branch of
+  `intersection`: the receiver must get a COPY of the other list; seed C09-3 aliased it, so that the following
+  `discard(target namespace)`, `discard('')` narrowed the other wildcard: `aliasedInter`.) -/
+
+structure Ctor where
+  write : List String → List String      -- what the constructor leaves in the shared object
+  read : Bool                             -- does it snapshot the shared object for its own use?
+
+def runCtor (s : Shared) (c : Ctor) : Shared :=
+  let s' : Shared := if c.read then { s with snaps := s.snaps ++ [s.ag] } else s
+  { s' with ag := c.write s'.ag }
+
+def PureCtor (c : Ctor) : Prop := ∀ l, c.write l = l
+
+/-- `##other` ∩ list with the list ALIASED: the shared list loses the target namespace and the absent one -/
+def aliasedInter (tns : String) : Ctor := ⟨fun l => l.filter (fun x => x != tns && x != ""), false⟩
+/-- a user of the group that snapshots its wildcard (`##any` ∩ list = the list) -/
+def reader : Ctor := ⟨id, true⟩
+
 /-- `##defined` as /repo decides it: the declaration exists and lives in the wildcard's document -/
 def definedDoc (declared : Name → Bool) (docOf : Name → Nat) (wdoc : Nat) (n : Name) : Bool :=
   declared n && docOf n == wdoc
